@@ -335,6 +335,10 @@ class TypeMap:
             return dict(ctype=e['ctype'], kind='carray', elem=e, count=int(m.group(2)), ref=ref, ptr=ptr, const=const)
         if t.startswith('mersenne_twister_engine<') or t in ('mt19937', 'vpinst::Rng'):
             return dict(ctype='vp_rng', kind='engine', ref=ref, ptr=ptr, const=const)
+        if t in ('basic_ostream<char>', 'ostream', 'basic_ostream<char,char_traits<char>>'):
+            return dict(ctype='vp_ostream', kind='opaque', ref=ref, ptr=ptr, const=const)
+        if t in ('basic_ofstream<char>', 'ofstream', 'basic_ofstream<char,char_traits<char>>'):
+            return dict(ctype='vp_ofstream', kind='opaque', ref=ref, ptr=ptr, const=const)
         if t in ('basic_string<char>', 'string', 'basic_string<char,char_traits<char>>'):
             return dict(ctype='vp_string', kind='opaque', ref=ref, ptr=ptr, const=const)
         if t.startswith('__gnu_cxx::__normal_iterator<'):
@@ -574,6 +578,8 @@ class Emitter:
             return 'struct ' + ti['ctype']
         if ti['kind'] == 'engine':
             return 'struct ' + ti['ctype']
+        if ti['kind'] == 'opaque':
+            return ti['ctype']
         return ti['ctype']
 
     def vardecl(self, n):
@@ -615,6 +621,8 @@ class Emitter:
             const = 'const ' if ti['const'] else ''
             return '%s%s %s = %s;' % (const, cty, name, txt)
         # class or vector local
+        if ti['kind'] == 'opaque' and init is not None and strip_all(init)['kind'] in ('CXXConstructExpr', 'CXXTemporaryObjectExpr'):
+            return '%s %s; %s' % (cty, name, self.construct(strip_all(init), ti).replace('@DST@', '&' + name))
         hoist = getattr(self, 'loop_depth', 0) > 0
         if hoist:
             # CBMC 6.11 dfcc loses track of address-taken locals declared inside a loop body after a nested loop
@@ -700,6 +708,11 @@ class Emitter:
                     al.append(ib)
                 return '%s(@DST@, %s);' % (cname, ', '.join(al))
             return '%s(@DST@%s);' % (cname, ''.join(', ' + self.arg(a, None) for a in args))
+        if ti['kind'] == 'opaque':
+            # library object (std::ofstream ...): an opaque stub object constructed from its arguments (G14)
+            self.fire('G14')
+            cname = self.ctor_name(ti, None, len(args))
+            return '%s(@DST@%s);' % (cname, ''.join(', ' + self.arg(a, None) for a in args))
         raise ExtractError('construct of ' + str(ti))
 
     def ctor_name(self, ti, ctor_t, nargs):
@@ -716,6 +729,13 @@ class Emitter:
         rid = rd.get('id')
         if rid in self.refs:
             return self.refs[rid]
+        if rd.get('kind') == 'VarDecl' and rd.get('name') == 'cout':
+            self.fire('G13')
+            return 'vp_cout'
+        if rd.get('kind') == 'VarDecl' and rd.get('name') == 'value' and rid not in self.u.by_id and norm_type(qtype(n)) == 'bool':
+            # std::is_base_of<...>::value and friends: a compile-time constant of the instantiation; both values are explored
+            self.fire('G14')
+            return 'VP_TYPE_TRAIT()'
         if rd.get('kind') == 'EnumConstantDecl':
             self.fire('G14')
             return 'VP_ENUM_' + rd['name']
@@ -851,7 +871,7 @@ class Emitter:
             return h(self, n, args, dst)
         if name in MATH:
             self.fire('G3')
-            return '%s(%s)' % (MATH[name], ', '.join(self.emit(a) for a in args))
+            return '%s(%s)' % (self.opts.get('rename', {}).get(MATH[name], MATH[name]), ', '.join(self.emit(a) for a in args))
         if name == 'generate_canonical':
             self.fire('G14')
             return 'vp_generate_canonical(%s)' % self.arg(args[0], None)
@@ -1070,6 +1090,20 @@ class Emitter:
             r = h(self, n, args, dst)
             if r is not None:
                 return r
+        if op == 'operator<<' and bti['ctype'] in ('vp_ostream', 'vp_ofstream'):
+            # out << a << b ...: every operand is still evaluated, in order; the formatting is libstdc++'s (G13)
+            self.fire('G13')
+            lhs = self.emit(args[0])
+            r = strip_all(args[1])
+            rq = qtype(r)
+            if (r['kind'] == 'DeclRefExpr' and r.get('referencedDecl', {}).get('kind') == 'FunctionDecl') or 'std::_Set' in rq or '_Setprecision' in rq:
+                return 'VP_PUT(%s, 0)' % lhs        # a manipulator
+            if r['kind'] in ('StringLiteral', 'CharacterLiteral'):
+                return 'VP_PUT(%s, 0)' % lhs
+            ri = self.tm.info(rq)
+            if ri['kind'] != 'scalar':
+                return 'VP_PUT(%s, 0)' % lhs
+            return 'VP_PUT(%s, %s)' % (lhs, self.emit(args[1]))
         if bti['kind'] == 'iter':
             # iterators are (container, index): comparisons, increments and dereferences act on the index (G7)
             self.fire('G7')
